@@ -34,6 +34,22 @@ def fn_defaults(l: list = D0['list'], nd: dict = Param(D0['nested_dict']), nl: l
     return dict(l=l, nd=nd, nl=nl, t=t, f=f)
 
 
+class InnerD(Schema):
+    x: int = 2
+    tags: list = Field(default_factory=list)
+
+
+def mk_inner():
+    return InnerD(x=2, tags=[1, [2]])
+
+
+INNER0 = mk_inner()
+
+
+class OuterD(Schema):
+    inner: InnerD = INNER0
+
+
 class Forced(Schema):
     __options__ = Options(force_default=[[0]])
     a: list
@@ -53,15 +69,29 @@ MUTATIONS = {
 
 
 
-BOUNDS = ('Schema and @parse function with list / nested list / dict / nested dict (dict of dict of list, list of dict) / set / '
+BOUNDS = ('a data-class instance as declared default (class kept, own copy per instance); Schema and @parse function with list / nested list / dict / nested dict (dict of dict of list, list of dict) / set / '
           'tuple-of-mutables / default_factory defaults, and Options(force_default=[[0]]): a solver-picked field and a '
           'solver-picked in-place mutation at a solver-picked nesting level of one instance\'s (call\'s) value; a second '
           'instance built before, one built afterwards and the declared default object are unchanged')
 
 
 def defaults(V):
-    which = V.pick('target', ['schema', 'function', 'forced'])
+    which = V.pick('target', ['schema', 'function', 'forced', 'instance-default'])
     pristine = mk_defaults()
+    if which == 'instance-default':
+        # a data-class instance as declared default: every new instance gets its own copy, of the same class
+        a, b = OuterD(), OuterD()
+        m = V.pick('mutation', [lambda v: v.tags.append(9), lambda v: v.tags[1].append(9), lambda v: v.__setitem__('x', 5),
+                                lambda v: None])
+        det0 = lambda: 'OuterD().inner -> %r (%s)' % (a.inner, type(a.inner).__name__)
+        V.check(type(a.inner) is InnerD and a.inner == mk_inner(), 'pure:instance-default-not-preserved', det0)
+        m(a.inner)
+        c = OuterD()
+        det = lambda: 'OuterD(): mutated instance 1; instance 2 %r, later instance %r, declared default %r' % (b.inner, c.inner, INNER0)
+        V.check(b.inner == mk_inner() and c.inner == mk_inner(), 'pure:default-shared-with-earlier-instance', det)
+        V.check(INNER0 == mk_inner() and a.inner is not INNER0, 'pure:declared-default-mutated', det)
+        V.cover('instance-default')
+        return
     if which == 'forced':
         a, b = Forced(), Forced()
         m = V.pick('mutation', [lambda v: v.append(9), lambda v: v[0].append(9)])
